@@ -7,7 +7,8 @@ from harness.gen import c07gen as G
 from harness.impl import c07impl as I
 
 IMPORTS = "From Ford Require Import Base.Str Sem.Scope Corr.C07."
-THEOREMS = []
+THEOREMS = ["C07_partial", "C07_refuted_proc_shadow", "C07_refuted_sibling_leak", "C07_statement_refuted",
+            "C07_unresolved_stays_text", "C07_example_hypotheses"]
 REGION_KEYS = {1: "contained-procedure-does-not-shadow-host", 2: "local-declarations-leak-through-shared-tables"}
 
 
